@@ -639,7 +639,11 @@ Definition cycle_from (x : list feat) : val :=
               | Some x2 =>
                   match write_gff_h x2 with
                   | None => VL [VB false; VB false; VE e_type]
-                  | Some w3 => VL [VB (wfh_C02 x && wfh_C02 x1); VB (rt_C02 x); VL [v_feats x; VS w1; v_feats x1; VS w2; VS w3]]
+                  | Some w3 =>
+                      (* a text equal to the text before it is printed as None (the harness abbreviates the implementation's
+                         texts the same way before comparing) *)
+                      VL [VB (wfh_C02 x && wfh_C02 x1); VB (rt_C02 x);
+                          VL [v_feats x; VS w1; v_feats x1; if str_eqb w2 w1 then VNone else VS w2; if str_eqb w3 w2 then VNone else VS w3]]
                   end
               end
           end
@@ -1058,7 +1062,7 @@ Definition run_C02_disp (fmt : option str) (ext : str) (rfmt : str) (sepo : opti
       let known := match fmt with Some s => negb (registered s) || match fmt_key s with Some _ => true | None => false end | None => true end
                    && (negb (registered rfmt) || match fmt_key rfmt with Some _ => true | None => false end) in
       match write_fts_m fmt ext sepo names x' with
-      | inr e => VL [VB (known && negb (str_eqb e (bs "Other"%bs))); VB false; VE e]
+      | inr e => VL [VB false; VB false; VE e]      (* which exception an unknown name / extension raises is not part of the property *)
       | inl t =>
           let sepw := match sepo, resolve_w fmt ext with Some c, _ => c | None, inl f => default_sep f | None, inr _ => x09 end in
           (* the written text is compared byte for byte: inside the GFF domain / the unquoted cell grid *)
@@ -1071,7 +1075,7 @@ Definition run_C02_disp (fmt : option str) (ext : str) (rfmt : str) (sepo : opti
                         end in
           (* read with the format it was written in (any spelling), or with a name that is no format at all *)
           let same := match resolve_w fmt ext, fmt_key rfmt with
-                      | inl _, None => true
+                      | inl _, None => false
                       | inl FGff, Some FGff => true
                       | inl FGff, Some _ => false
                       | inl _, Some FGff => false
